@@ -50,6 +50,7 @@ var (
 	cSubBand      = simrt.RegisterCounter("op_sub_band_configuration")
 	cSharedBand   = simrt.RegisterCounter("op_shared_band_with_concurrent_planners")
 	cDeep         = simrt.RegisterCounter("op_long_history_plan_grown_to_several_blocks")
+	cRevisit      = simrt.RegisterCounter("op_device_set_planned_again_after_many_others")
 	cReuseBuf     = simrt.RegisterCounter("fault_caller_reuses_its_device_list_buffer")
 	cScribble     = simrt.RegisterCounter("fault_caller_overwrites_a_plan_it_was_handed")
 	cPlaceholder  = simrt.RegisterCounter("op_add_placeholder_slot_frequency_0")
@@ -79,7 +80,12 @@ type msg struct {
 }
 
 type world struct {
-	deep    bool
+	deep bool
+	// device sets judged since the band last changed: now and then an old one
+	// is planned for again (a device that comes back after many others)
+	seen    [][]int
+	nJudge  int
+	revisit bool
 	shared  bool     // several tasks plan on this band at the same time
 	devBuf  [256]int // the caller's device-list buffer, re-used from call to call (single-owner runs)
 	lastPls []lorawan.LinkADRReqPayload
@@ -216,6 +222,7 @@ func sleep(d int64) {
 
 func (w *world) bandOp(r *sim.Rand) {
 	simrt.Count(cBandOps)
+	w.seen, w.nJudge = w.seen[:0], 0
 	n := len(w.m.Chans)
 	// typical operator configurations of the 72-channel plans: one sub-band with
 	// its 500 kHz channel, or the 500 kHz channels only
@@ -312,6 +319,19 @@ func toSpec(pls []lorawan.LinkADRReqPayload) []spec.LinkADR {
 func (w *world) judge(dev []int, label string) []lorawan.LinkADRReqPayload {
 	simrt.Count(cSets)
 	sim.Op()
+	if !w.shared && !w.revisit {
+		w.nJudge++
+		if len(w.seen) < 40 {
+			w.seen = append(w.seen, append([]int(nil), dev...))
+		}
+		if w.nJudge%18 == 0 && len(w.seen) > 17 {
+			old := w.seen[(w.nJudge/18)%3]
+			w.revisit = true
+			simrt.Count(cRevisit)
+			w.judge(append([]int(nil), old...), label+", planned for again after other devices")
+			w.revisit = false
+		}
+	}
 	// what the caller hands in is the caller's: in single-owner runs the
 	// device list lives in ONE buffer that the next call overwrites (a request
 	// loop with a scratch slice), and the plan handed out by the previous call
